@@ -1091,7 +1091,73 @@ class TermEngine(Engine):
     def try_body_exit(self, s):
         self.try_stack.pop()
 
+    def _unrollable(self, s, state):
+        """for x in <literal tuple / list of at most 16 elements>: with no break / continue / else of this loop -> the elements"""
+        if not isinstance(s, ast.For) or s.orelse:
+            return None
+        def own_jumps(nodes):
+            for n in nodes:
+                if isinstance(n, (ast.Break, ast.Continue)):
+                    return True
+                if isinstance(n, (ast.For, ast.While, ast.AsyncFor, ast.FunctionDef, ast.AsyncFunctionDef, ast.ClassDef, ast.Lambda)):
+                    continue
+                if own_jumps(list(ast.iter_child_nodes(n))):
+                    return True
+            return False
+        if own_jumps(s.body):
+            return None
+
+        def pure(nodes):
+            # only loops that merely accumulate into locals are unrolled: per-node terms of such a body carry no site of interest
+            for n in nodes:
+                if isinstance(n, (ast.Assign, ast.AugAssign, ast.AnnAssign)):
+                    tg = n.targets if isinstance(n, ast.Assign) else [n.target]
+                    if not all(isinstance(t, ast.Name) for t in tg):
+                        return False
+                elif isinstance(n, ast.If):
+                    if not (pure(n.body) and pure(n.orelse)):
+                        return False
+                elif not isinstance(n, ast.Pass):
+                    return False
+            return True
+        if not pure(s.body):
+            return None
+        saved = self.a.record
+        self.a.record = False
+        try:
+            it = self.a.ev(s.iter, state.copy())
+        except AnalysisError:
+            it = None
+        finally:
+            self.a.record = saved
+        if it is not None and it[0] in ("tuple", "list") and 0 < len(it[1]) <= 16 and not any(x[0] == "starred" for x in it[1]):
+            return list(it[1])
+        if it is not None and it[0] == "const" and isinstance(it[1], (tuple, list)) and 0 < len(it[1]) <= 16:
+            return [const(x) for x in it[1]]
+        return None
+
     def loop(self, s, state) -> Completions:
+        elts = self._unrollable(s, state)
+        if elts is not None:
+            # a loop over a literal sequence is the sequence of its bodies
+            self.a.ev(s.iter, state.copy())
+            out = Completions()
+            cur = [state]
+            for x in elts:
+                nxt = []
+                for st0 in cur:
+                    st1 = st0.copy()
+                    self.a.assign(s.target, x, st1)
+                    bo = self.block(s.body, st1)
+                    out.returns += bo.returns
+                    out.raises += bo.raises
+                    nxt += bo.normal
+                j = self._join(nxt)
+                cur = [j] if j is not None else []
+                if not cur:
+                    break
+            out.normal += cur
+            return out
         widened = self.a.widen_loop(s, state)
         # one pass suffices: every name assigned in the body is already ⊤-like at the head
         is_while = isinstance(s, ast.While)
